@@ -99,6 +99,31 @@ def explore(ctx, depth):
     docrun.run_option_sets(ctx, rcases, combos[::3] if depth == 'quick' else combos, sels,
                            'export of a text outside the generator\'s grammar under an option set is not what the model / the text specification says',
                            'raw text: option sets', spec=False, nontriv=lambda *a: True)
+    # (b0) documents with malformed cells (kept verbatim as error tokens) under every option set: correspondence and Lean text specification
+    import copy as _copy0
+    from corpus_tokens import DAMAGED
+    import tokobs
+    rejected = [t for t in DAMAGED if tokobs.fresh_kern(t)[0] is None and '@' not in t and '\u00b7' not in t and t.strip() == t and t]
+    ddocs = []
+    for case in cases[:6 if depth == 'quick' else 60]:
+        if case.doc is None:
+            continue
+        v = _copy0.deepcopy(case.adoc)
+        k = 0
+        for row in v['rows']:
+            if row['kind'] == 'cells' and row['rk'] in ('data', 'interp'):
+                for ci, c in enumerate(row['cells']):
+                    if v['headers'][row['live'][ci]] == '**kern' and k < 3 and rng.random() < 0.3:
+                        t = rng.choice(rejected)
+                        row['cells'][ci] = {'k': 'other', 'kind': 'error', 'text': t}
+                        k += 1
+        if k:
+            ddocs.append(v)
+    if ddocs:
+        dcases = [c for c in docrun.make_cases(ctx, 0, docs=ddocs) if c.doc is not None]
+        docrun.run_option_sets(ctx, dcases, combos[::2] if depth == 'quick' else combos, sels,
+                               'export of a document with malformed cells under an option set is not what the model / the text specification says',
+                               'malformed cells: option sets', spec=False, nontriv=lambda *a: True)
     # (b2) free text with the two separator characters ('@', U+00B7): what the property says about such cells is the open finding F10 (C03 / C04 /
     # C12); here only the correspondence with the model is checked, under every encoding and a few selections
     import copy as _copy
@@ -159,6 +184,23 @@ def explore(ctx, depth):
                 if p != {'ok': stripped}:
                     ctx.fail({'text': case.text, 'encoding': enc, 'clause': 'plain = stripped extended (document)'},
                              'the plain encoding of the filtered export is not the extended one with the separators removed', impl=p, expected={'ok': stripped})
+        # dump(): the destination's name says nothing about the encoding - omitted options mean the defaults whatever the suffix, and the file
+        # holds what dumps() returns for the same options
+        import tempfile, os, pathlib
+        with tempfile.TemporaryDirectory(prefix='kernverif_c13_') as td:
+            for name in ('out.krn', 'out.ekrn', 'out.EKRN', 'out.bekrn', 'out.akrn', 'out.aekrn', 'out.bkrn', 'out.ekern', 'out.txt', 'out'):
+                for kw in ({}, {'spine_ids': [0]}, {'exclude': [TC.DECORATION]}):
+                    path = os.path.join(td, name)
+                    def via_dump():
+                        kp.dump(case.doc, path if len(kw) != 1 else pathlib.Path(path), **kw)
+                        with open(path, encoding='utf-8', newline='') as f:
+                            return f.read()
+                    got = call(via_dump)
+                    exp = call(lambda: kp.dumps(case.doc, **kw))
+                    ctx.seen({'text': case.text, 'clause': 'dump to ' + name, 'kw': sorted(kw)}, nontrivial=False)
+                    if got != exp:
+                        ctx.fail({'text': case.text, 'file': name, 'options': sorted(kw), 'clause': 'dump(): omitted options are the defaults whatever the file name'},
+                                 'dump() to this file name does not write what dumps() returns for the same (omitted) options', impl=got, expected=exp)
         # explicit defaults vs omitted
         base = call(lambda: kp.dumps(case.doc))
         variants = [dict(spine_types=None), dict(include=None, exclude=None), dict(encoding=None), dict(spine_ids=None, from_measure=None, to_measure=None),
